@@ -220,6 +220,18 @@ class ClassParser(BaseParser):
 
         self.fields.update(field_map)
 
+    def resolve_forward_refs(self, local_vars=None, ignore_errors: bool = True):
+        # the fields taken over from a base class are the base parser's own field objects: their pending
+        # references are registered with (and resolved by) that parser, in the namespace of its module,
+        # so a subclass used before its base has to let the base resolve them first
+        resolved = False
+        for base in self.obj.__bases__:
+            parser = base.__dict__.get("__parser__") if isinstance(base, type) else None
+            if isinstance(parser, ClassParser) and parser is not self:
+                if parser.resolve_forward_refs(ignore_errors=ignore_errors):
+                    resolved = True
+        return super().resolve_forward_refs(local_vars=local_vars, ignore_errors=ignore_errors) or resolved
+
     def generate_from_bases(self):
         fields = {}
         annotations = {}
